@@ -9,6 +9,7 @@ import subprocess
 import sys
 import vlib
 import sim_common
+import mpi_common
 
 NAMES = ["processed messages", "processed messages time", "rollbacks", "recovery time", "rolled back messages", "checkpoints", "checkpoints time",
          "checkpoints size", "silent messages", "silent messages time", "anti messages", "gvt real time"]
@@ -64,70 +65,87 @@ def run(tier, seed):
                                   threads=[1, 2, 3, 4, 8, 2, 12, 5], gvts=[0, 20, 1000, 100000, 300, 5000, 200])
     recs = sim_common.run_sim_cases(chk, cases, timeout=300, retries=0)
     shipped = os.path.join(vlib.REPO, "src", "log", "parse", "rootsim_stats.py")
-    files = recs_checked = 0
-    for c, res, rec, anomaly in recs:
-        path = c["stats"] + ".bin"
-        if anomaly or not rec["ok"]:
-            if os.path.exists(path):
-                os.remove(path)
-            continue
-        if "models_rejected" in rec["stats"]:
-            continue
-        tag = res.tag
+    counters = {"files": 0, "recs": 0}
+
+    def compare(tag, cmd, path, outs):
+        """outs: the engine output of every node (rank) of the run, in node order."""
         if not os.path.exists(path):
-            chk.violation("stats-file-missing", "run %s asked for statistics but produced no file" % tag, {"cmd": res.cmd})
-            continue
+            chk.violation("stats-file-missing", "run %s asked for statistics but produced no file" % tag, {"cmd": cmd})
+            return
         try:
             names, nodes = parse(path)
         except (ValueError, struct.error) as e:
-            chk.violation("stats-file-malformed", "run %s: independent reader rejects the file: %s" % (tag, e), {"cmd": res.cmd})
+            chk.violation("stats-file-malformed", "run %s: independent reader rejects the file: %s" % (tag, e), {"cmd": cmd})
             os.remove(path)
-            continue
-        files += 1
+            return
+        counters["files"] += 1
         if names != NAMES:
-            chk.violation("stats-names", "run %s: metric names %s" % (tag, names), {"cmd": res.cmd})
-        # shipped parser must accept it too
+            chk.violation("stats-names", "run %s: metric names %s" % (tag, names), {"cmd": cmd})
         p = subprocess.run([sys.executable, "-c", "import sys; sys.path.insert(0, %r); import rootsim_stats; rootsim_stats.RSStats(%r)" % (os.path.dirname(shipped), path)],
                            stdout=subprocess.PIPE, stderr=subprocess.PIPE, text=True)
         if p.returncode != 0:
-            chk.violation("shipped-parser-rejects", "run %s: %s" % (tag, p.stderr[-300:]), {"cmd": res.cmd})
-        g, node, thr = nodes[0]
-        wins = {}
-        for m in re.finditer(r"^WIN (\d+) (\d+) (\S+) (\d+) (\d+) (\d+) (\d+) (\d+) (\d+)$", res.out, re.M):
-            t, k = int(m.group(1)), int(m.group(2))
-            wins.setdefault(t, {})[k] = (float.fromhex(m.group(3)),) + tuple(int(x) for x in m.groups()[3:])
-        counts = [len(t) for t in thr]
-        if any(cn != len(node) for cn in counts):
-            chk.violation("record-counts-differ", "run %s: node has %d records, threads have %s" % (tag, len(node), counts), {"cmd": res.cmd, "node": len(node), "threads": counts})
-        prev = -1.0
-        for k, (gvt, rss) in enumerate(node):
-            if gvt < prev:
-                chk.violation("gvt-column-decreases", "run %s: node record %d has GVT %r after %r" % (tag, k, gvt, prev), {"cmd": res.cmd})
-            prev = gvt
-        for t, recs_t in enumerate(thr):
-            cum_f = cum_u = 0
-            w = wins.get(t, {})
-            if len(w) != len(recs_t):
-                chk.violation("records-vs-gvt-values-consumed", "run %s: thread %d consumed %d GVT values in the main loop, its statistics hold %d records" % (tag, t, len(w), len(recs_t)), {"cmd": res.cmd})
-            for k, r in enumerate(recs_t):
-                recs_checked += 1
-                cum_f += r[0]
-                cum_u += r[4]
-                if cum_u > cum_f:
-                    chk.violation("undone-exceeds-forward", "run %s: thread %d record %d: cumulative undone %d > forward %d" % (tag, t, k, cum_u, cum_f), {"cmd": res.cmd})
-                if k in w:
-                    gv, fwd, rb, und, sil, ck, anti = w[k]
-                    got = (r[0], r[2], r[4], r[8], r[5], r[10])
-                    want = (fwd, rb, und, sil, ck, anti)
-                    if got != want:
-                        chk.violation("record-differs-from-observed-events", "run %s: thread %d record %d reports (forward, rollbacks, undone, silent, checkpoints, anti) = %s, the hooks observed %s" % (tag, t, k, got, want), {"cmd": res.cmd})
-                    if k < len(node) and node[k][0] != gv:
-                        chk.violation("gvt-column-differs-from-gvt-told", "run %s: node record %d GVT %r, thread %d was told %r" % (tag, k, node[k][0], t, gv), {"cmd": res.cmd})
+            chk.violation("shipped-parser-rejects", "run %s: %s" % (tag, p.stderr[-300:]), {"cmd": cmd})
+        if len(nodes) != len(outs):
+            chk.violation("node-count", "run %s: file holds %d nodes, the run had %d" % (tag, len(nodes), len(outs)), {"cmd": cmd})
+        for ni, ((g, node, thr), out) in enumerate(zip(nodes, outs)):
+            wins = {}
+            for m in re.finditer(r"^WIN (\d+) (\d+) (\S+) (\d+) (\d+) (\d+) (\d+) (\d+) (\d+)$", out, re.M):
+                t, k = int(m.group(1)), int(m.group(2))
+                wins.setdefault(t, {})[k] = (float.fromhex(m.group(3)),) + tuple(int(x) for x in m.groups()[3:])
+            counts = [len(t) for t in thr]
+            if any(cn != len(node) for cn in counts):
+                chk.violation("record-counts-differ", "run %s node %d: node has %d records, threads have %s" % (tag, ni, len(node), counts), {"cmd": cmd, "node": len(node), "threads": counts})
+            prev = -1.0
+            for k, (gvt, rss) in enumerate(node):
+                if gvt < prev:
+                    chk.violation("gvt-column-decreases", "run %s node %d: record %d has GVT %r after %r" % (tag, ni, k, gvt, prev), {"cmd": cmd})
+                prev = gvt
+            for t, recs_t in enumerate(thr):
+                cum_f = cum_u = 0
+                w = wins.get(t, {})
+                if len(w) != len(recs_t):
+                    chk.violation("records-vs-gvt-values-consumed", "run %s node %d: thread %d completed %d reductions, its statistics hold %d records" % (tag, ni, t, len(w), len(recs_t)), {"cmd": cmd})
+                for k, r in enumerate(recs_t):
+                    counters["recs"] += 1
+                    cum_f += r[0]
+                    cum_u += r[4]
+                    if cum_u > cum_f:
+                        chk.violation("undone-exceeds-forward", "run %s node %d: thread %d record %d: cumulative undone %d > forward %d" % (tag, ni, t, k, cum_u, cum_f), {"cmd": cmd})
+                    if k in w:
+                        gv, fwd, rb, und, sil, ck, anti = w[k]
+                        got = (r[0], r[2], r[4], r[8], r[5], r[10])
+                        want = (fwd, rb, und, sil, ck, anti)
+                        if got != want:
+                            chk.violation("record-differs-from-observed-events", "run %s node %d: thread %d record %d reports (forward, rollbacks, undone, silent, checkpoints, anti) = %s, the hooks observed %s" % (tag, ni, t, k, got, want), {"cmd": cmd})
+                        if k < len(node) and node[k][0] != gv:
+                            chk.violation("gvt-column-differs-from-gvt-told", "run %s node %d: record %d GVT %r, thread %d was told %r" % (tag, ni, k, node[k][0], t, gv), {"cmd": cmd})
         os.remove(path)
+
+    for c, res, rec, anomaly in recs:
+        path = c["stats"] + ".bin"
+        if anomaly or not rec["ok"] or "models_rejected" in rec["stats"]:
+            if os.path.exists(path):
+                os.remove(path)
+            continue
+        compare(res.tag, res.cmd, path, [res.out])
+    # multi-rank runs: the records of the other ranks travel through mpi_blocking_data_send/_rcv into the same file
+    chk.soft_fraction = 0.3
+    mcases = mpi_common.make_cases("C20", tier, seed, 8 if tier == "quick" else 120, variants=(0,), fault_rates=(0,), layouts=[(2, 2), (2, 1), (3, 2), (2, 3)])
+    for c in mcases:
+        c["stats"] = os.path.join(vlib.BUILD, "stats", "C20m_%d_%d" % (os.getpid(), c["k"]))
+    for c, res, texts, anomaly in mpi_common.run_mpi_cases(chk, mcases, timeout=30 if tier == "quick" else 90, retries=0):
+        path = c["stats"] + ".bin"
+        if anomaly or not all("OK sim" in t for t in texts) or any("models_rejected" in t for t in texts):
+            if os.path.exists(path):
+                os.remove(path)
+            continue
+        compare(res.tag, res.cmd, path, texts)
+        chk.stats["multi_rank_stats_files"] = chk.stats.get("multi_rank_stats_files", 0) + 1
+    files, recs_checked = counters["files"], counters["recs"]
     chk.stats["stats_files_parsed"] = files
     chk.stats["records_checked"] = recs_checked
     chk.rule = ("one case = a parallel run with a statistics file (threads 1..12, GVT period 0..100 ms so runs have zero, one and many records, predicate and "
                 "termination-time endings, failpoint after the GVT block); every per-thread record is one comparison with the hook-event counts of its "
                 "window; non-trivial / distinct as C01")
-    chk.assumptions = ["single node (records of other ranks: mpi engine)", "time and size columns are not checked (no independent source)"]
-    return chk.finish(min_evals=20, require={"stats_files_parsed": 20, "records_checked": 500, "rollbacks": 100})
+    chk.assumptions = ["time and size columns are not checked (no independent source)"]
+    return chk.finish(min_evals=20, require={"stats_files_parsed": 20, "records_checked": 500, "rollbacks": 100, "multi_rank_stats_files": 2})
